@@ -111,6 +111,10 @@ func C04Family() []string {
 			}
 		}
 	}
+	// headers under a message format that has no place for them: the message must be refused, not sent without them
+	for _, ver := range []string{"0.8.2.0", "0.10.0.0", "0.10.2.0"} {
+		out = append(out, "prod?ver="+ver+"&codec=none&kv=1&oldhdr=1&rm=1&nb=1&parts=0,0,0,0&acks=1&fm=0&ff=100&policy=input&faults=notleader&gates="+Gates)
+	}
 	return out
 }
 
